@@ -139,6 +139,39 @@ def one_case(rng, res):
                          {"why": "digest equality does not coincide with equality of the contained (path, content) sets"})
 
 
+def lstrip_case(rng, res):
+    """`lstrip_paths` shortens the *name* under which a directory is recorded (dir:build/out -> dir:out); the digest is
+    that of the files' paths relative to the directory, untouched - also when such a path starts with the prefix."""
+    import in_toto.runlib as rl
+    pre = rng.choice(["build/", "sub/", "b"])
+    tree = gen_dir_tree(rng)
+    tree[pre.rstrip("/")] = ("d", {"config.txt": ("f", b"c\n"), "deep": ("d", {"x": ("f", b"x\n")})}) if pre.endswith("/") else ("f", b"plain\n")
+    tree["config.txt"] = ("f", b"top\n")
+    name = pre + "out" if pre.endswith("/") else "bout"
+    d = tempfile.mkdtemp(prefix="verif-c20l-")
+    cwd = os.getcwd()
+    try:
+        materialise_shuffled(tree, os.path.join(d, name), rng)
+        os.chdir(d)
+        try:
+            r = rl.record_artifacts_as_dict(["dir:" + name], lstrip_paths=[pre])
+            i = {"ok": sorted([k, v["sha256"]] for k, v in r.items())}
+        except Exception as e:  # pylint: disable=broad-except
+            i = {"err": type(e).__name__}
+    finally:
+        os.chdir(cwd)
+        shutil.rmtree(d, ignore_errors=True)
+    exp, entries = documented_digest(tree, [])
+    want = {"ok": [["dir:" + name[len(pre):], exp]]}
+    desc = {"variant": "lstrip", "prefix": pre, "dir": name, "n_files": len(entries)}
+    res.case({"desc": desc, "impl": i}, True, i == want, sample_cap=1)
+    res.count("variant_lstrip")
+    if i != want:
+        res.fail("oracle", {"op": "dir_digest_lstrip", "desc": desc, "tree": T.to_jsonable(tree)},
+                 {"why": "with lstrip_paths=%r the directory must be recorded as %r with the digest of its files' relative paths" % ([pre], want["ok"][0][0]),
+                  "impl": i, "expected": want})
+
+
 def many_files_case(n, rng, res):
     """A directory with very many files (counts just above powers of two: chunked processing shows at the seams)."""
     tree = {}
@@ -173,6 +206,8 @@ def shard_many(seed, counts):
     rng = core.rng_for(seed, "c20", "many")
     for n in counts:
         many_files_case(n, rng, res)
+    for _ in range(4 if len(counts) <= 2 else 40):
+        lstrip_case(rng, res)
     return res
 
 
